@@ -257,3 +257,11 @@ def gen_mixed_frames(rng, lnk, n, cfg, counters, style=None, variant_fault=False
         if ln > 1:
             last["faults"] = list(last["faults"]) + [{"k": "trunc", "len": lnk.randrange(1, ln)}]
     return frames
+
+
+def long_run_frames(rng, counters):
+    """>= 1100 tiny frames of one or two kinds (or noise) as scenario frame dicts, plus the style name."""
+    run, style = device.long_run(rng)
+    counters.hit("long_run_wires")
+    counters.hit("long_run:" + style)
+    return [{"kind": k if k != "garbage" else "noise", "hex": b.hex(), "faults": [], "note": note} for k, b, note in run], style
